@@ -48,6 +48,11 @@ type c07Input struct {
 	Depth      int     `json:"depth,omitempty"`     // 0 = whole history with tables
 	NegDone    bool    `json:"negDone,omitempty"`   // the last round carries the done flag
 	TableAcks  bool    `json:"tableAcks,omitempty"` // selected tables that the destination acknowledges having are not offered (push)
+	// Cuts: every packfile of the transfer is also delivered cut short (the connection drops) to a copy
+	// of the destination as it was before that packfile: at every byte of its small objects, at sampled
+	// bytes of the large ones, at every object boundary and inside the file header
+	Cuts    bool `json:"cuts,omitempty"`
+	CutsMax int  `json:"cutsMax,omitempty"` // at most this many cut points per case
 }
 
 // c07ZoneMinutes: zone offsets commits are authored in. Whole hours and fractional ones on both sides
@@ -421,6 +426,129 @@ func copyKey(dst, src *MemStore, key []byte) {
 	}
 }
 
+// c07CloneStore copies a store (the destination as it is at some point of the transfer).
+func c07CloneStore(s *MemStore) *MemStore {
+	c := NewMemStore()
+	for _, k := range s.Keys() {
+		if v, err := s.Get([]byte(k)); err == nil {
+			c.Set([]byte(k), v)
+		}
+	}
+	return c
+}
+
+// c07ObjectSpans reads the framing of a packfile (8 header bytes, then per object a type/length
+// prefix and the content) and returns where each object starts, plus the total length. It is only
+// used to choose cut points; which cuts fall on an object boundary is decided by the oracle from
+// the object sizes.
+func c07ObjectSpans(b []byte) []int {
+	starts := []int{}
+	off := 8
+	for off < len(b) {
+		starts = append(starts, off)
+		u := uint64(b[off] & 15)
+		bits := 4
+		off++
+		for off < len(b) {
+			c := b[off]
+			off++
+			u |= uint64(c&127) << bits
+			bits += 7
+			if c&128 == 0 {
+				break
+			}
+		}
+		off += int(u)
+	}
+	return append(starts, len(b))
+}
+
+// c07CutPoints chooses where a packfile is cut: inside the header, at every object boundary, at every
+// byte of objects up to 256 bytes (commits, small tables and blocks), and for larger objects at 16
+// bytes from either end plus 16 drawn in between. When that is more than max, whole objects are
+// dropped at random (boundaries and header cuts stay).
+func c07CutPoints(b []byte, xr *rand.Rand, max int) []int {
+	bounds := c07ObjectSpans(b)
+	cuts := []int{0, 4, 7}
+	cuts = append(cuts, bounds...)
+	perObj := [][]int{}
+	total := 0
+	for i := 0; i+1 < len(bounds); i++ {
+		lo, hi := bounds[i]+1, bounds[i+1]-1 // interior offsets lo..hi
+		var cs []int
+		if hi-lo+1 <= 256 {
+			for c := lo; c <= hi; c++ {
+				cs = append(cs, c)
+			}
+		} else {
+			seen := map[int]bool{}
+			add := func(c int) {
+				if c >= lo && c <= hi && !seen[c] {
+					seen[c] = true
+					cs = append(cs, c)
+				}
+			}
+			for d := 0; d < 16; d++ {
+				add(lo + d)
+				add(hi - d)
+			}
+			for d := 0; d < 16; d++ {
+				add(lo + xr.Intn(hi-lo+1))
+			}
+		}
+		perObj = append(perObj, cs)
+		total += len(cs)
+	}
+	order := xr.Perm(len(perObj))
+	budget := max - len(cuts)
+	for _, i := range order {
+		if len(perObj[i]) > budget {
+			continue
+		}
+		budget -= len(perObj[i])
+		cuts = append(cuts, perObj[i]...)
+	}
+	sort.Ints(cuts)
+	return cuts
+}
+
+// c07ProbeCut delivers the first `cut` bytes of a packfile to a copy of the destination and reports
+// [cut, outcome (0 accepted, 1 refused), every stored object equals the source's (1/0), and how many
+// commits, tables and blocks the copy holds afterwards].
+func c07ProbeCut(w *c07World, base *MemStore, expected [][]byte, pack []byte, k, cut int) []int {
+	dst := c07CloneStore(base)
+	refused := 0
+	pr, err := packfile.NewPackfileReader(io.NopCloser(bytes.NewReader(pack[:cut])))
+	if err != nil {
+		refused = 1
+	} else {
+		recv := apiutils.NewObjectReceiver(dst, expected, logr.Discard())
+		if _, err := recv.Receive(pr, nil); err != nil {
+			refused = 1
+		}
+	}
+	identical, nc, nt, nb := 1, 0, 0, 0
+	for _, key := range dst.Keys() {
+		kb := []byte(key)
+		switch {
+		case bytes.HasPrefix(kb, []byte("blk/")):
+			nb++
+		case bytes.HasPrefix(kb, []byte("tbl/")):
+			nt++
+		case bytes.HasPrefix(kb, []byte("com/")):
+			nc++
+		default:
+			continue
+		}
+		sv, err1 := w.src.Get(kb)
+		dv, err2 := dst.Get(kb)
+		if err1 != nil || err2 != nil || !bytes.Equal(sv, dv) {
+			identical = 0
+		}
+	}
+	return []int{k, cut, refused, identical, nc, nt, nb}
+}
+
 func c07Run(w *c07World) Res {
 	in := w.in
 	return Guard(func() Res {
@@ -539,11 +667,22 @@ func c07Run(w *c07World) Res {
 		recv := apiutils.NewObjectReceiver(dst, expected, logr.Discard())
 		packs := [][][]int{}
 		recvDone := false
+		cuts := [][]int{}
+		cutsLeft := in.CutsMax
+		xr := rand.New(rand.NewSource(in.Seed ^ 0x63757473))
 		for k := 0; k < 100000; k++ {
 			buf := bytes.NewBuffer(nil)
 			done, _, err := sender.WriteObjects(buf, nil)
 			if err != nil {
 				return fail("write-objects")
+			}
+			if in.Cuts && cutsLeft > 0 {
+				// the same packfile, interrupted: against the destination as it is now
+				base := c07CloneStore(dst)
+				for _, c := range c07CutPoints(buf.Bytes(), xr, cutsLeft) {
+					cuts = append(cuts, c07ProbeCut(w, base, expected, buf.Bytes(), k, c))
+					cutsLeft--
+				}
 			}
 			pr, err := packfile.NewPackfileReader(io.NopCloser(bytes.NewReader(buf.Bytes())))
 			if err != nil {
@@ -639,6 +778,9 @@ func c07Run(w *c07World) Res {
 		if neg != nil {
 			val["neg"] = neg
 		}
+		if in.Cuts {
+			val["cuts"] = cuts
+		}
 		return Ok(val)
 	})
 }
@@ -651,6 +793,11 @@ func runC07(ctx *Ctx) {
 	if err != nil {
 		ctx.Emit("xfer", map[string]interface{}{"genSeed": seed, "negotiated": negotiated}, Err("build"), false)
 		return
+	}
+	// one case in four (and every other negotiated one) also delivers every packfile cut short
+	if (ctx.Idx%4 == 1 || ctx.Idx%8 == 7) && !w.in.Dishonest {
+		w.in.Cuts = true
+		w.in.CutsMax = 400
 	}
 	res := c07Run(w)
 	nt := len(w.in.DstBlocks) > 0 || w.in.MaxSize > 0 && w.in.MaxSize < 3000
@@ -677,11 +824,15 @@ func corpusC07(ctx *Ctx, op string, raw json.RawMessage) {
 	if err != nil {
 		return
 	}
+	w.in.Cuts, w.in.CutsMax = in.Cuts, in.CutsMax
 	ctx.Emit("xfer", w.in, c07Run(w), true, append([]string{"corpus"}, c07Tags(w.in)...)...)
 }
 
 func c07Tags(in *c07Input) []string {
 	tags := []string{}
+	if in.Cuts {
+		tags = append(tags, "cut-packfile")
+	}
 	if in.Negotiated {
 		tags = append(tags, "negotiated")
 		if in.Depth > 0 {
